@@ -145,25 +145,28 @@ func cmdCheck(args []string) {
 			fmt.Fprintf(os.Stderr, "ENGINE: %s has no contract\n", ref)
 			os.Exit(2)
 		}
-		x := exec.NewExec(p, fn, exec.ModeProof)
-		x.Spec = spec
-		if err := x.Run(); err != nil {
-			// the function left the supported subset or the contract no longer fits the code:
-			// reported as an undischarged obligation of that function, never as a silent pass
-			all = append(all, oblRes{Name: ref + "/vcgen", Kind: "vcgen", Proved: false, Output: err.Error()})
-			continue
-		}
-		rs := x.Discharge(c.cfg)
-		n := 0
-		for _, r := range rs {
-			all = append(all, oblRes{Name: r.Obl.Name, Kind: r.Obl.Kind, Proved: r.Verdict == exec.Proved, Solver: r.Solver, Seconds: r.Seconds, Output: r.Output, Model: r.Model, Size: r.Size, Trivial: r.Trivial})
-			n++
-		}
-		if n == 0 {
-			all = append(all, oblRes{Name: ref + "/vacuous", Kind: "vacuity", Proved: false, Output: "no obligations generated"})
+		for ci := 0; ci < exec.SplitCases(spec); ci++ {
+			x := exec.NewExec(p, fn, exec.ModeProof)
+			x.Spec = spec
+			x.SplitIdx = ci
+			if err := x.Run(); err != nil {
+				// the function left the supported subset or the contract no longer fits the code:
+				// reported as an undischarged obligation of that function, never as a silent pass
+				all = append(all, oblRes{Name: ref + "/vcgen", Kind: "vcgen", Proved: false, Output: err.Error()})
+				continue
+			}
+			rs := x.Discharge(c.cfg)
+			n := 0
+			for _, r := range rs {
+				all = append(all, oblRes{Name: r.Obl.Name, Kind: r.Obl.Kind, Proved: r.Verdict == exec.Proved, Solver: r.Solver, Seconds: r.Seconds, Output: r.Output, Model: r.Model, Size: r.Size, Trivial: r.Trivial})
+				n++
+			}
+			if n == 0 {
+				all = append(all, oblRes{Name: ref + "/vacuous", Kind: "vacuity", Proved: false, Output: "no obligations generated"})
+			}
+			c.Notes = append(c.Notes, x.Notes...)
 		}
 		funcsDone = append(funcsDone, ref)
-		c.Notes = append(c.Notes, x.Notes...)
 	}
 	// 2. complete unwinding families and table lemmas
 	for _, u := range def.Unwind {
